@@ -862,6 +862,22 @@ void exhaustive()
       vf::note_distinct(hash_box<N>(a, vf::hash_str(e)));
       auto const la = L::mk(a);
       std::uint64_t n = 0;
+      // size / pos / max stay consistent for an inverted box too: pos + size is max (in the arithmetic of T), and the
+      // box made from (pos, size) is the same box - nothing that is empty becomes non-empty on the way
+      // (not for vf::natural: the size of an inverted box is negative, which that scalar cannot represent - a built-in
+      // unsigned type wraps, and wraps back)
+      if constexpr (!std::is_same_v<T, vf::natural>)
+      {
+        using box_t = typename L::box;
+        auto const back = la.pos() + la.size();
+        box_t const again(la.pos(), la.size());
+        bool same = true;
+        for (dim_t k = 0; k < N; ++k)
+          same = same && back.get_unsafe(k) == la.max().get_unsafe(k) && again.max().get_unsafe(k) == la.max().get_unsafe(k) && again.pos().get_unsafe(k) == la.pos().get_unsafe(k);
+        VF_COUNT("size/inverted-box-consistency");
+        if (!same)
+          c.bad("size", "inverted-box/pos-plus-size-is-not-max", "box " + show<N>(a));
+      }
       for (auto const &p : c.lat.pts)
       {
         ++n;
